@@ -26,10 +26,10 @@ const (
 )
 
 type c04Val struct {
-	seq []int            // stream
-	set map[int]any      // set: key -> value
-	ss  map[int][]int    // stream set: key -> stream elements
-	ssn map[int]bool     // stream set: key -> stream pointer is nil
+	seq []int         // stream
+	set map[int]any   // set: key -> value
+	ss  map[int][]int // stream set: key -> stream elements
+	ssn map[int]bool  // stream set: key -> stream pointer is nil
 }
 
 type c04Handle struct {
@@ -42,25 +42,25 @@ type c04Handle struct {
 type c04Fam struct {
 	name string
 	// streams
-	newStream func(l []int, spare int) any
-	sPtr      func(s any) uintptr
-	sToArray  func(s any) []int
-	sLen      func(s any) int
-	sGet      func(s any, i int) int
-	sContains func(s any, x int) bool
-	sIsSubset func(s, o any) bool
-	sIsSuper  func(s, o any) bool
-	sOp       func(op string, s any, k int, xs []int, others []any) any
-	sDetached func(s any) bool // writing into ToArray()'s result must not reach the stream
+	newStream     func(l []int, spare int) any
+	sPtr          func(s any) uintptr
+	sToArray      func(s any) []int
+	sLen          func(s any) int
+	sGet          func(s any, i int) int
+	sContains     func(s any, x int) bool
+	sIsSubset     func(s, o any) bool
+	sIsSuper      func(s, o any) bool
+	sOp           func(op string, s any, k int, xs []int, others []any) any
+	sDetached     func(s any) bool // writing into ToArray()'s result must not reach the stream
 	removeInPlace bool
 	// sets
-	newSet    func(keys []int) any
-	setPtr    func(s any) uintptr
-	setRead   func(s any) map[int]any
-	setOp     func(op string, s any, k int, xs []int, other any) any
-	setSet    func(s any, key int, v int)
-	setQuery  func(s any, x int) (containsKey, containsValue bool, get any, size int)
-	setSub    func(s, o any) (sub, super bool)
+	newSet     func(keys []int) any
+	setPtr     func(s any) uintptr
+	setRead    func(s any) map[int]any
+	setOp      func(op string, s any, k int, xs []int, other any) any
+	setSet     func(s any, key int, v int)
+	setQuery   func(s any, x int) (containsKey, containsValue bool, get any, size int)
+	setSub     func(s, o any) (sub, super bool)
 	setDefault any // value given by the constructor
 	setAddVal  any // value given by Add
 	// stream sets
@@ -577,7 +577,7 @@ func (s c04Step) String() string {
 }
 
 type c04Machine struct {
-	fam     *c04Fam
+	fam      *c04Fam
 	handles  []*c04Handle
 	trace    []string
 	initDesc string
